@@ -284,8 +284,10 @@ func (iter *DBIterator) materialize(src *kv.Entry) bool {
 		if src.Value == nil || src.IsDeletedOrExpired() {
 			return false
 		}
+		// src.Value is the storage's own memory (memtable arena or SST block): hand it out
+		// read-only and keep the item's scratch buffer, which ValueCopy appends into, apart.
 		iter.entry.Value = src.Value
-		iter.item.valueBuf = iter.entry.Value
+		iter.item.valueBuf = iter.item.valueBuf[:0]
 	}
 	iter.item.e = &iter.entry
 	return true
